@@ -1270,6 +1270,50 @@ func c29Fixed() []c29Item {
 	return it
 }
 
+// c29Systematic enumerates small neighbourhoods of a real envelope completely: every prefix, and every
+// byte value (thorough: all 256; quick: the UTF-8 class boundaries) inserted at every position of the
+// first 13 bytes; thorough also inserts every ordered pair of class-boundary bytes.
+func c29Systematic(thorough bool) []c29Item {
+	var it []c29Item
+	base := []byte(`{"kfs_lfs":1,"bucket":"b","key":"k","size":1,"sha256":"a"}`)
+	for n := 0; n <= len(base); n++ {
+		it = append(it, c29Item{Name: fmt.Sprintf("prefix-%d", n), Bytes: append([]byte(nil), base[:n]...)})
+	}
+	classes := []byte{0x00, 0x09, 0x20, 0x22, 0x5c, 0x7b, 0x7f, 0x80, 0xa0, 0xbf, 0xc0, 0xc1, 0xc2, 0xdf, 0xe0, 0xe2, 0xed, 0xef, 0xf0, 0xf4, 0xf5, 0xf8, 0xfe, 0xff}
+	vals := classes
+	if thorough {
+		vals = make([]byte, 256)
+		for i := range vals {
+			vals[i] = byte(i)
+		}
+	}
+	for pos := 0; pos <= 12; pos++ {
+		for _, v := range vals {
+			b := append(append(append([]byte(nil), base[:pos]...), v), base[pos:]...)
+			it = append(it, c29Item{Name: fmt.Sprintf("ins1-%d-%02x", pos, v), Bytes: b})
+		}
+		if thorough {
+			for _, v := range classes {
+				for _, w := range classes {
+					b := append(append(append([]byte(nil), base[:pos]...), v, w), base[pos:]...)
+					it = append(it, c29Item{Name: fmt.Sprintf("ins2-%d-%02x%02x", pos, v, w), Bytes: b})
+				}
+			}
+		}
+	}
+	// the same insertions into the 13-byte short form (below the floor before, at/above it after)
+	short := []byte(`{"kfs_lfs":1}`)
+	for pos := 0; pos <= len(short); pos++ {
+		for _, v := range classes {
+			b := append(append(append([]byte(nil), short[:pos]...), v), short[pos:]...)
+			it = append(it, c29Item{Name: fmt.Sprintf("short-ins1-%d-%02x", pos, v), Bytes: b})
+			b2 := append(append(append([]byte(nil), short[:pos]...), v, v), short[pos:]...)
+			it = append(it, c29Item{Name: fmt.Sprintf("short-ins2-%d-%02x", pos, v), Bytes: b2})
+		}
+	}
+	return it
+}
+
 func c29Mutate(rng *rand.Rand, base []byte) []byte {
 	b := append([]byte(nil), base...)
 	for k := 1 + rng.Intn(3); k > 0; k-- {
@@ -1314,10 +1358,11 @@ func c29Mutate(rng *rand.Rand, base []byte) []byte {
 	return b
 }
 
-const c29RuleAgreement = "[agreement] byte strings given to the three is-envelope functions (Go lfs.IsLfsEnvelope in-process, python3 running the tree's lfs_sdk/envelope.py, node running the type-erased envelope.ts), all fed from the same file: a fixed list (short forms around the 15-byte floor, marker start swept over bytes 29..57 behind 1/2/3/4-byte characters, multi-byte characters cut by the 50-byte boundary, 10 kinds of invalid UTF-8 at each of the 10 positions inside the marker and around it, leading whitespace/BOM/NUL, case/escape/quote variants of the marker, control bytes) plus PRNG mutations of real envelopes (insert/delete/overwrite/truncate/pad/prepend) and random '{'-prefixed binary. Oracle: the three verdicts are equal for every byte string; non-trivial = a near-miss (contains the text kfs_lfs or starts with '{') rather than plain noise"
+const c29RuleAgreement = "[agreement] byte strings given to the three is-envelope functions (Go lfs.IsLfsEnvelope in-process, python3 running the tree's lfs_sdk/envelope.py, node running the type-erased envelope.ts), all fed from the same file: a fixed list (short forms around the 15-byte floor, marker start swept over bytes 29..57 behind 1/2/3/4-byte characters, multi-byte characters cut by the 50-byte boundary, 10 kinds of invalid UTF-8 at each of the 10 positions inside the marker and around it, leading whitespace/BOM/NUL, case/escape/quote variants of the marker, control bytes) plus complete small neighbourhoods (every prefix of a real envelope; every UTF-8 class-boundary byte - thorough: every byte value and every pair of boundary bytes - inserted at each of the first 13 positions, also into the 13-byte short form) plus PRNG mutations of real envelopes (insert/delete/overwrite/truncate/pad/prepend) and random '{'-prefixed binary. Oracle: the three verdicts are equal for every byte string; non-trivial = a near-miss (contains the text kfs_lfs or starts with '{') rather than plain noise"
 
 func c29PhaseAgreement(r *verifkit.Run) []c29Item {
 	items := c29Fixed()
+	items = append(items, c29Systematic(r.Thorough())...)
 	r.Count("fixed_inputs", int64(len(items)))
 	n := r.N(2500, 60000)
 	for ci := 0; ci < n; ci++ {
@@ -1363,11 +1408,36 @@ func TestVerifC29(t *testing.T) {
 		"js: envelope.ts is run after conservative type erasure (interface block, signature annotations, `as T`); a file node rejects is inconclusive, never a violation",
 		"a language whose runner cannot start makes the run inconclusive",
 		"the multipart upload-complete producer (third call site of EncodeEnvelope, same struct) is not driven")
+	if rp := verifkit.Replay(); rp != nil {
+		// replay one witness: {"replay": {"hex": ...}} as written by the driver
+		inner, _ := rp["replay"].(map[string]any)
+		hx, _ := inner["hex"].(string)
+		b, err := hex.DecodeString(hx)
+		if err != nil || inner == nil {
+			t.Fatalf("VERIF_REPLAY: no replay.hex in witness")
+		}
+		it := c29Item{Name: "replay", Bytes: b, Real: strings.HasPrefix(fmt.Sprint(inner["name"]), "gen-") || strings.HasPrefix(fmt.Sprint(inner["name"]), "rewrite-") || strings.HasPrefix(fmt.Sprint(inner["name"]), "http-")}
+		r.Case("replay", true)
+		r.Case("replay-2", true)
+		r.Sample(map[string]any{"replayed": hx})
+		c29Cross(t, r, "replay", []c29Item{it})
+		return
+	}
 	var items []c29Item
+	t0 := time.Now()
+	phase := map[string]float64{}
 	items = append(items, c29PhaseRoundTrip(r)...)
+	phase["generated"] = time.Since(t0).Seconds()
+	t1 := time.Now()
 	items = append(items, c29PhaseProxy(t, r)...)
+	phase["proxy"] = time.Since(t1).Seconds()
+	t1 = time.Now()
 	items = append(items, c29PhaseAgreement(r)...)
+	phase["agreement_inputs"] = time.Since(t1).Seconds()
+	t1 = time.Now()
 	c29Cross(t, r, "envelopes", items)
+	phase["three_libraries"] = time.Since(t1).Seconds()
+	r.Note("phase_wall_seconds", phase) // information only, no oracle reads it
 	r.Floor("decoded_equal_go_python", 200)
 	r.Floor("decoded_equal_go_js", 200)
 	r.Floor("all_three_say_envelope", 100)
